@@ -87,13 +87,26 @@ fn cpu_ticks(pid: u32) -> Option<(u64, bool)> {
 }
 
 fn gdb_backtrace(pid: u32) -> String {
-    Command::new("gdb")
-        .args(["-p", &pid.to_string(), "-batch", "-ex", "thread apply all bt 40"])
-        .stdin(Stdio::null())
-        .stderr(Stdio::null())
-        .output()
-        .map(|o| String::from_utf8_lossy(&o.stdout).to_string())
-        .unwrap_or_default()
+    // the process is stopped first so that the backtrace is a consistent snapshot and memory stops growing
+    unsafe {
+        libc::kill(pid as i32, libc::SIGSTOP);
+    }
+    let mut last = String::new();
+    for _ in 0..3 {
+        let o = Command::new("gdb").args(["-p", &pid.to_string(), "-batch", "-ex", "thread apply all bt 60"]).stdin(Stdio::null()).output();
+        match o {
+            Ok(o) => {
+                let out = String::from_utf8_lossy(&o.stdout).to_string();
+                if out.contains("Thread ") && out.contains("#0") {
+                    return out;
+                }
+                last = format!("gdb gave no backtrace: stdout {:?} stderr {:?}", &out[..out.len().min(200)], String::from_utf8_lossy(&o.stderr).chars().take(300).collect::<String>());
+            }
+            Err(e) => last = format!("gdb could not be run: {}", e),
+        }
+        std::thread::sleep(Duration::from_millis(500));
+    }
+    last
 }
 
 pub fn run_s4(spec: RunSpec) -> RunOut {
